@@ -211,10 +211,19 @@ Definition check_group (e : env) (L : list tx) : gerr :=
 
 End WithHash.
 
-(** Transactions.CheckSign *)
+(** Transactions.CheckSign without the members' sender gate ([check_sign]:
+    signature present, types.CheckSign) - what it was before chain33 909acb0
+    and what every accepted group still satisfies *)
 Definition group_check_sign (ds : list drv) (verify : Z -> list N -> list N -> list N -> bool)
     (L : list tx) (h : Z) : bool :=
   forallb (fun t => check_sign ds verify t h) L.
+
+(** Transactions.CheckSign: Transaction.checkSign of every member, which since
+    chain33 909acb0 also refuses a Signature.ty / key from which no sender
+    address can be derived (C16.Model.check_sign_tx) *)
+Definition group_check_sign_tx (adrv : Z -> list N -> aout) (ds : list drv)
+    (verify : Z -> list N -> list N -> list N -> bool) (L : list tx) (h : Z) : bool :=
+  forallb (fun t => check_sign_tx adrv ds verify t h) L.
 
 (** ** message Transactions { repeated Transaction txs = 1; }, Tx(), GetTxGroup *)
 Definition encode_txs (L : list tx) : list N := enc_rep_msg 1 (map encode_tx L).
